@@ -71,7 +71,7 @@ def tlc(module, cfg=None, workers=None, timeout=900, env=None, simulate=None, de
     cmd = ["java"]
     if heap:
         cmd += ["-Xmx" + heap]
-    cmd += ["-XX:+UseParallelGC", "-cp",
+    cmd += ["-XX:+UseParallelGC", "-Xss64m", "-cp",
             "/opt/veriftools/tla/tla2tools.jar:/opt/veriftools/tla/CommunityModules-deps.jar",
             "tlc2.TLC", "-noGenerateSpecTE", "-metadir", md, "-config", cfgp]
     cmd += ["-workers", str(workers or min(NCPU, 8))]
